@@ -78,6 +78,11 @@ func propSeedWord(id string) uint64 {
 //	VERIF_KNOWN     known_findings.json
 //	VERIF_REPLAY    replay file to execute instead of searching
 func TestSim(t *testing.T) {
+	defer func() {
+		if c30RootsDir != "" {
+			os.RemoveAll(c30RootsDir)
+		}
+	}()
 	id := os.Getenv("VERIF_PROP")
 	if id == "" {
 		t.Skip("VERIF_PROP not set")
